@@ -89,23 +89,66 @@ theorem assocBody_some (env : ModelEnv) (fac : Factory) (nested : Bool) (a : Old
 
 /-! ### the id lists -/
 
+/-- what `int(id)` raises for a key that is no number: `ValueError`, or `unmodelled` for a text of the lenient class -/
+def keyErr (k : Key) : LErr := match jInt (keyJ k) with | .error e => e | .ok _ => .py .valueError
+
+/-- the exception of the first id of the list that is no number -/
+def idsErr : List Key → LErr
+  | [] => .py .valueError
+  | k :: ks => if k.toInt?.isSome then idsErr ks else keyErr k
+
+theorem keyErr_cases (k : Key) (hk : k.toInt? = none) :
+    jInt (keyJ k) = .error (keyErr k) ∧ (keyErr k = .py .valueError ∨ keyErr k = .unmodelled) := by
+  unfold keyErr
+  rcases jInt_keyJ_none' k hk with hj | hj <;> rw [hj]
+  · exact ⟨rfl, Or.inl rfl⟩
+  · exact ⟨rfl, Or.inr rfl⟩
+
+theorem idsErr_cases (ks : List Key) (h : ks.mapM Key.toInt? = none) :
+    idsErr ks = .py .valueError ∨ idsErr ks = .unmodelled := by
+  induction ks with
+  | nil => exact Or.inl rfl
+  | cons k ks ih =>
+    unfold idsErr
+    cases hk : k.toInt? with
+    | none => exact (keyErr_cases k hk).2
+    | some i =>
+      rw [List.mapM_cons, hk] at h
+      cases hm : ks.mapM Key.toInt? with
+      | none => simpa using ih hm
+      | some is => rw [hm] at h; cases h
+
+/-- **with plain keys** (`keyPlain`) the exception is `ValueError` -/
+theorem idsErr_plain (ks : List Key) (hp : ∀ k ∈ ks, keyPlain k = true) : idsErr ks = .py .valueError := by
+  induction ks with
+  | nil => rfl
+  | cons k ks ih =>
+    unfold idsErr
+    cases hk : k.toInt? with
+    | none =>
+      have := jInt_keyJ_none k hk (hp k List.mem_cons_self)
+      simp only [Option.isSome_none, Bool.false_eq_true, if_false, keyErr, this]
+    | some i => simpa using ih (fun k' hk' => hp k' (List.mem_cons_of_mem _ hk'))
+
 theorem ids_mapM (h : H) (env : ModelEnv) (ks : List Key) :
     List.mapM (fun id => (do
         let i ← jInt id
         pure (model_get_asset_by_id h env i) : Except LErr (Option ARef))) (ks.map keyJ) =
       (match ks.mapM Key.toInt? with
-       | none => .error (.py .valueError)
+       | none => .error (idsErr ks)
        | some is => .ok (is.map (MS.getAssetById (abs h)))) := by
   induction ks with
   | nil => rfl
   | cons k ks ih =>
     rw [List.map_cons, List.mapM_cons, List.mapM_cons, ih]
     cases hk : k.toInt? with
-    | none => rw [jInt_keyJ_none k hk]; rfl
+    | none =>
+      rw [(keyErr_cases k hk).1]
+      simp only [idsErr, hk]; rfl
     | some i =>
       rw [jInt_keyJ_some k i hk]
       cases ks.mapM Key.toInt? with
-      | none => rfl
+      | none => simp only [idsErr, hk]; rfl
       | some is => simp only [get_asset_by_id_tie]; rfl
 
 theorem mapM_bind_opt {α β γ : Type} (f : α → Option β) (g : β → Option γ) (ks : List α) :
@@ -144,7 +187,7 @@ theorem resolveIds_newAssocObj (s : H) (o : PyAssoc) (ks : List Key) :
 theorem fieldBody_eq (env : ModelEnv) (fac : Factory) (lref : LRef) (f : String) (ks : List Key) (h : H) :
     fieldBody env fac lref (.str f, .list (ks.map keyJ)) h =
       (match ks.mapM Key.toInt? with
-       | none => .error (.py .valueError)
+       | none => .error (idsErr ks)
        | some is => (pjsSetField fac h lref (.str f) (is.map (MS.getAssetById (abs h)))).bind
           (fun s => .ok (ForInStep.yield s))) := by
   have h1 : fieldBody env fac lref (.str f, .list (ks.map keyJ)) h =
@@ -157,11 +200,11 @@ theorem fieldBody_eq (env : ModelEnv) (fac : Factory) (lref : LRef) (f : String)
 
 /-- the exceptions of one field assignment: `ValueError` (`int(id)` of a string that is not a number) or the pjs
 `ValidationError` (unknown id = `None` member, no such field, member type, `maxItems`) -/
-def FieldErr (e : LErr) : Prop := e = .py .valueError ∨ e = .validation
+def FieldErr (e : LErr) : Prop := e = .py .valueError ∨ e = .validation ∨ e = .unmodelled
 
 /-- the hand model answers `validation` in all these cases -/
 theorem FieldErr.agree {e : LErr} (h : FieldErr e) : OldErrAgree e .validation := by
-  rcases h with h | h <;> subst h <;> decide
+  rcases h with h | h | h <;> subst h <;> decide
 
 theorem field_unresolved (env : ModelEnv) (fac : Factory) (s : H) (o : PyAssoc) (f : String) (ks : List Key)
     (hr : Ser.resolveIds (abs s) ks = none) :
@@ -169,13 +212,16 @@ theorem field_unresolved (env : ModelEnv) (fac : Factory) (s : H) (o : PyAssoc) 
   rw [fieldBody_eq]
   rw [← resolveIds_newAssocObj s o, resolveIds_eq] at hr
   cases hk : ks.mapM Key.toInt? with
-  | none => exact ⟨_, rfl, Or.inl rfl⟩
+  | none =>
+    rcases idsErr_cases ks hk with he | he
+    · exact ⟨_, rfl, Or.inl he⟩
+    · exact ⟨_, rfl, Or.inr (Or.inr he)⟩
   | some is =>
     rw [hk] at hr
     have hr' : is.mapM (MS.getAssetById (abs (newAssocObj s o))) = none := hr
     unfold pjsSetField
     simp only [mapM_id_map, hr']
-    exact ⟨_, rfl, Or.inr rfl⟩
+    exact ⟨_, rfl, Or.inr (Or.inl rfl)⟩
 
 /-- the pjs guard of one field: member types and `maxItems` -/
 def fieldOk (fac : Factory) (s : H) (ty : String) (mx : Option Nat) (xs : List ARef) : Bool :=
@@ -287,7 +333,7 @@ theorem fields_cases (env : ModelEnv) (fac : Factory) (s : H) (a : OldAssoc) (c 
       cases g1 : fieldOk fac s c.ltype c.lmax l with
       | false =>
         rw [g1] at h1
-        refine .inl ⟨⟨_, forIn_cons_err _ _ _ _ _ h1, Or.inr rfl⟩, ?_⟩
+        refine .inl ⟨⟨_, forIn_cons_err _ _ _ _ _ h1, Or.inr (Or.inl rfl)⟩, ?_⟩
         cases hr : Ser.resolveIds (abs s) a.right with
         | none => exact loadOld_err_right _ _ _ hr
         | some r =>
@@ -314,7 +360,7 @@ theorem fields_cases (env : ModelEnv) (fac : Factory) (s : H) (a : OldAssoc) (c 
             cases g2 : fieldOk fac s c.rtype c.rmax r with
             | false =>
               rw [g2] at h2
-              refine .inl ⟨⟨_, forIn_cons_err _ _ _ _ _ h2, Or.inr rfl⟩, ?_⟩
+              refine .inl ⟨⟨_, forIn_cons_err _ _ _ _ _ h2, Or.inr (Or.inl rfl)⟩, ?_⟩
               rw [loadOld_match fac s a c l r hl hr hf e1.symm e2.symm, g1, g2]; rfl
             | true =>
               rw [g2, if_pos rfl] at h2
@@ -323,7 +369,7 @@ theorem fields_cases (env : ModelEnv) (fac : Factory) (s : H) (a : OldAssoc) (c 
               · rw [loadOld_match fac s a c l r hl hr hf e1.symm e2.symm, g1, g2]; rfl
           · have hb3 : (a.rf == c.rf) = false := beq_eq_false_iff_ne.2 e2
             rw [hb3, if_neg (by decide)] at h2
-            exact .inl ⟨⟨_, forIn_cons_err _ _ _ _ _ h2, Or.inr rfl⟩,
+            exact .inl ⟨⟨_, forIn_cons_err _ _ _ _ _ h2, Or.inr (Or.inl rfl)⟩,
               loadOld_err_fields _ _ _ c hf (fun h => e2 h.2.symm)⟩
     · -- the first entry is not the left field: the hand model rejects the entry
       have hb : (a.lf == c.lf) = false := beq_eq_false_iff_ne.2 e1
@@ -336,7 +382,7 @@ theorem fields_cases (env : ModelEnv) (fac : Factory) (s : H) (a : OldAssoc) (c 
         cases g1 : fieldOk fac s c.rtype c.rmax l with
         | false =>
           rw [g1] at h1
-          exact .inl ⟨⟨_, forIn_cons_err _ _ _ _ _ h1, Or.inr rfl⟩, hbad⟩
+          exact .inl ⟨⟨_, forIn_cons_err _ _ _ _ _ h1, Or.inr (Or.inl rfl)⟩, hbad⟩
         | true =>
           rw [g1, if_pos rfl] at h1
           rw [forIn_cons_ok _ _ _ _ _ h1]
@@ -352,10 +398,10 @@ theorem fields_cases (env : ModelEnv) (fac : Factory) (s : H) (a : OldAssoc) (c 
             have hb2 : (a.rf == c.lf) = false := beq_eq_false_iff_ne.2 (fun h => hsw ⟨e1', h⟩)
             have hb3 : (a.rf == c.rf) = false := beq_eq_false_iff_ne.2 (fun h => hd (e1'.trans h.symm))
             rw [hb2, if_neg (by decide), hb3, if_neg (by decide)] at h2
-            exact .inl ⟨⟨_, forIn_cons_err _ _ _ _ _ h2, Or.inr rfl⟩, hbad⟩
+            exact .inl ⟨⟨_, forIn_cons_err _ _ _ _ _ h2, Or.inr (Or.inl rfl)⟩, hbad⟩
       · have hb' : (a.lf == c.rf) = false := beq_eq_false_iff_ne.2 e1'
         rw [hb', if_neg (by decide)] at h1
-        exact .inl ⟨⟨_, forIn_cons_err _ _ _ _ _ h1, Or.inr rfl⟩, hbad⟩
+        exact .inl ⟨⟨_, forIn_cons_err _ _ _ _ _ h1, Or.inr (Or.inl rfl)⟩, hbad⟩
 
 /-! ### a member id that is not a number (the one-fault disagreement of this loop) -/
 
@@ -363,13 +409,13 @@ theorem fields_cases (env : ModelEnv) (fac : Factory) (s : H) (a : OldAssoc) (c 
 theorem assocBody_left_not_int (env : ModelEnv) (fac : Factory) (nested : Bool) (a : OldAssoc)
     (hW : AssocWf fac.L nested a) (s : H) (c : MS.AssocClass)
     (hf : (MS.assocClasses fac.L).find? (·.cls = a.metaconcept) = some c) (hne : c.lf ≠ c.rf)
-    (h : a.left.mapM Key.toInt? = none) :
+    (h : a.left.mapM Key.toInt? = none) (hpl : ∀ k ∈ a.left, keyPlain k = true) :
     assocBody env fac (encAssoc nested a) s = .error (.py .valueError) := by
   rw [assocBody_some env fac nested a hW s c hf hne]
   unfold assocItems
   have h1 : fieldBody env fac s.lfresh (.str a.lf, .list (a.left.map keyJ))
       (newAssocObj s { cls := a.metaconcept, lf := c.lf, rf := c.rf, distinct := hne }) = .error (.py .valueError) := by
-    rw [fieldBody_eq, h]
+    rw [fieldBody_eq, h, idsErr_plain _ hpl]
   rw [forIn_cons_err _ _ _ _ _ h1]
   rfl
 
